@@ -7,7 +7,7 @@
 # Both are removed at the end (KEEP=1 keeps them for a following run).
 set -u
 pat=${1:-C*}
-R=/tmp/vreg
+R=${VREG:-/tmp/vreg}
 if [ ! -d $R/repo ]; then
   mkdir -p $R
   git -C /repo worktree add --detach $R/repo HEAD -q || exit 2
@@ -19,9 +19,12 @@ sed -i "s#path = \"/repo/bigtools\"#path = \"$R/repo/bigtools\"#" $R/verif/harne
 export VERIF_REPO=$R/repo BIGTOOLS_SRC=$R/repo/bigtools VERIF_OUT_BASE=$R/verif/.cache/mutant-out
 cd $R/verif
 ok=0; bad=0
+n=0
 for d in seeded/$pat/; do
   id=$(basename $d)
   [ -f $d/meta.json ] || continue
+  n=$((n+1))
+  if [ -n "${SHARD:-}" ]; then [ $(( n % ${SHARD#*/} )) -eq $(( ${SHARD%/*} % ${SHARD#*/} )) ] || continue; fi
   checks=$(python3 -c "import json;print(' '.join(json.load(open('$d/meta.json'))['detected_by']))")
   ( cd $R/repo && git apply $R/verif/$d/patch.diff ) || { echo "SEEDED $id PATCH-DOES-NOT-APPLY"; bad=$((bad+1)); continue; }
   res=""
